@@ -326,6 +326,20 @@ def blanks_rule(repo, res, rule="BLANKS"):
     skippers |= set(tabled)
     for q, names in sorted(users.items()):
         res.check(q in skippers, rule, f"{rule}:{q}", f"uses nom's raw {sorted(names)}" + (" inside a blank/comment skipper" if q in skippers else ": a token-level parser skips plain whitespace only here -- comments and form feeds at this boundary are not skipped (layout changes the parse)"), repo.fns[q].loc())
+    # the same knowledge at the level of str / char: `trim_start`, `split_whitespace`, `char::is_whitespace` .. know blanks and line
+    # breaks but not `#` comments, so a parser that looks ahead over `input.fragment().trim_start()` sees the next token in one
+    # layout and a comment in another.  Allowed inside the skippers and where tabled (text *inside* a token).
+    str_ws = {"trim", "trim_start", "trim_end", "trim_ascii", "trim_ascii_start", "trim_ascii_end", "split_whitespace", "split_ascii_whitespace", "is_whitespace", "is_ascii_whitespace",
+              "trim_left", "trim_right", "trim_start_matches", "trim_end_matches", "trim_matches"}
+    str_tabled = {"parse::triple_bracket_command": "the text between {{{ and }}} is one token; its surrounding blanks are not part of the command"}
+    for fn in repo.fns_in("parse"):
+        if fn.cfg_test if hasattr(fn, "cfg_test") else False:
+            continue
+        used = sorted({n["method"] for n in A.walk(fn.body) if n["k"] == "MethodCall" and n["method"] in str_ws} |
+                      {n["path"].split("::")[-1] for n in A.walk(fn.body) if n["k"] == "Path" and "::" in n["path"] and n["path"].split("::")[-1] in str_ws})
+        if used:
+            okq = fn.qname in skippers or fn.qname in str_tabled
+            res.check(okq, rule, f"{rule}:{fn.qname}:str-whitespace", f"uses {used}" + (f" ({str_tabled.get(fn.qname, 'inside a skipper')})" if okq else ": str/char whitespace tests do not know `#` comments or form feeds; a look-ahead or a skip built on them treats two layouts of the same grammar differently"), fn.loc())
     res.check(len(skippers) >= 1, rule, f"{rule}:skippers-found", f"skippers that may use the raw parsers: {sorted(skippers)}", "")
     # inside the skippers: the combinators they are built from.  A comment may be empty (`#` at the end of a line), a form feed is one
     # character, blank runs need at least one character to make progress: the zero-or-more / one-or-more choice of each is part of what
